@@ -162,7 +162,10 @@ func mutatePolicy(r *rand.Rand, cur *wPolicy, allowBad bool) (*wPolicy, string) 
 	kinds := []string{"bump-rule", "rotate-root", "raise-thr", "add-global", "drop-global", "noop"}
 	if allowBad {
 		kinds = append(kinds, "BAD-root-unsigned", "BAD-root-wrong-key", "BAD-targets-wrong-key", "BAD-root-rollback", "BAD-targets-rollback",
-			"BAD-drop-delegated", "BAD-dangling", "BAD-delegated-wrong-key", "BAD-newroot-selfsigned", "BAD-replace-delegated", "BAD-root-lifted-sigs")
+			"BAD-drop-delegated", "BAD-dangling", "BAD-delegated-wrong-key", "BAD-newroot-selfsigned", "BAD-replace-delegated", "BAD-root-lifted-sigs", "BAD-delegated-shadow-principal")
+	}
+	if allowBad && len(p.Files) > 1 { // with a delegated rule file present, its forbidden evolutions are tried more often
+		kinds = append(kinds, "BAD-drop-delegated", "BAD-delegated-wrong-key", "BAD-replace-delegated", "BAD-delegated-shadow-principal", "BAD-delegated-shadow-principal")
 	}
 	k := kinds[r.Intn(len(kinds))]
 	switch k {
@@ -254,6 +257,21 @@ func mutatePolicy(r *rand.Rand, cur *wPolicy, allowBad bool) (*wPolicy, string) 
 		} else {
 			t.Version++
 		}
+	case "BAD-delegated-shadow-principal": // a delegated file re-declares the principal its delegating rule names, with an intruder's key, and is signed by it
+		if len(p.Files) > 1 {
+			d := p.Files[1]
+			d.Version++
+			for _, rl := range t.Rules {
+				if rl.Name == d.Name {
+					for _, pid := range rl.Pids {
+						d.Defs[pid] = []int{8}
+					}
+				}
+			}
+			d.Signers = []int{8}
+		} else {
+			t.Version++
+		}
 	case "BAD-root-lifted-sigs": // a root naming an intruder's key, carrying the previous root's signature block
 		p.RootVersion++
 		p.RootKeys, p.RootThr, p.RootSigners = []int{2}, 1, []int{2} // later states are signed by the intruder
@@ -329,6 +347,7 @@ func genIncidentWorld(r *rand.Rand) *wWorld {
 		g.addEvent(wEvent{Kind: "policy", Pol: mk(version, auth), Signer: 1})
 	}
 	goodTrees := []int{}
+	goodCommits := []int{}
 	good := func(signerPid int) {
 		parent := g.tips[refMain]
 		if parent == 0 {
@@ -338,6 +357,7 @@ func genIncidentWorld(r *rand.Rand) *wWorld {
 		g.push(refMain, c, devKey(signerPid), false)
 		if signerPid == auth {
 			goodTrees = append(goodTrees, g.treeOf(c))
+			goodCommits = append(goodCommits, c)
 		}
 	}
 	annotate := func(pos int, both bool, noteFirst bool) {
@@ -364,7 +384,7 @@ func genIncidentWorld(r *rand.Rand) *wWorld {
 			}
 		default: // incident
 			bad := []int{}
-			for k := 0; k < 1+r.Intn(2); k++ {
+			for k := 0; k < 1+r.Intn(3); k++ {
 				c := g.newCommit(g.tips[refMain], 0)
 				g.push(refMain, c, []int{8, 6, 0}[r.Intn(3)], true)
 				bad = append(bad, len(g.w.Events)-1)
@@ -391,12 +411,15 @@ func genIncidentWorld(r *rand.Rand) *wWorld {
 					tree = 0 // not a fix at all
 				}
 				c := g.newCommit(g.tips[refMain], tree)
+				if tree == goodTrees[len(goodTrees)-1] && r.Intn(3) == 0 {
+					c = goodCommits[len(goodCommits)-1] // the reference is reset to the very commit of the last good state
+				}
 				signer := devKey(auth)
 				if r.Intn(4) == 0 {
 					signer = 8
 				}
 				g.push(refMain, c, signer, false)
-				if r.Intn(5) == 0 { // the fix itself is noted and revoked, then repaired again or not
+				if r.Intn(3) == 0 { // the fix itself is noted and revoked, then repaired again or not
 					annotate(len(g.w.Events)-1, true, r.Intn(2) == 0)
 					if r.Intn(2) == 0 {
 						c2 := g.newCommit(g.tips[refMain], goodTrees[len(goodTrees)-1])
